@@ -9,6 +9,10 @@ namespace Hc.Pairings
 inductive In
   | add (name : Nat) (key : Nat) (storable : Bool)
   | delete (name : Nat)
+  /-- add / delete naming the entity that holds a private key (the accessory's own identity, stored in the same
+      database): refused, nothing changes, no pairing event (F16 repair) -/
+  | addOwn (key : Nat)
+  | deleteOwn
   | otherMethod (n : Nat)          -- method item missing or not add/delete
   | malformedTlv
 deriving DecidableEq, Repr
@@ -33,5 +37,7 @@ def step (fixed : Bool) (s : Store) : In → Store × Out × Option Event
   | .delete n => (erase s n, .ok, some .unpaired)
   | .add n k true => ((n, k) :: erase s n, .ok, some .paired)
   | .add _ _ false => (s, if fixed then .http500 else .panic, none)
+  | .addOwn _ => (s, .http500, none)
+  | .deleteOwn => (s, .http500, none)
 
 end Hc.Pairings
